@@ -109,9 +109,11 @@ def leaf_value_src(r, kind, probe):
     if kind == "ipv6address":
         return f"ipaddress.IPv6Address({r.getrandbits(128)})"
     if kind == "ipv4network":
-        return r.choice(["ipaddress.IPv4Network('10.0.0.0/8')", "ipaddress.IPv4Network('192.168.1.0/24')", "ipaddress.IPv4Network('0.0.0.0/0')"])
+        # small networks only: inside a Union the speculative packer of an earlier list-like member *iterates* the
+        # network object (Union[List[str], IPv6Network] with ::/0 never returns and exhausts memory - a serializer defect)
+        return r.choice(["ipaddress.IPv4Network('10.0.0.0/31')", "ipaddress.IPv4Network('192.168.1.0/30')", "ipaddress.IPv4Network('8.8.8.8/32')"])
     if kind == "ipv6network":
-        return r.choice(["ipaddress.IPv6Network('2001:db8::/32')", "ipaddress.IPv6Network('::/0')"])
+        return r.choice(["ipaddress.IPv6Network('2001:db8::/126')", "ipaddress.IPv6Network('::1/128')"])
     if kind == "ipv4interface":
         return r.choice(["ipaddress.IPv4Interface('10.1.2.3/8')", "ipaddress.IPv4Interface('192.168.1.7/24')"])
     if kind == "ipv6interface":
@@ -219,14 +221,31 @@ def gen_data(r, tbl: Table, depth, probe, clsname=None, generic=False):
                        "alias": a_meta if a_meta is not None else a_ann if a_ann is not None else a_cfg})
     # class-wide serialization options that the schema builder also reads (Config or Config.dialect)
     cfg = {"omit_none": False, "nt_as_dict": False, "via_dialect": False}
-    if r.random() < 0.25:
+    if r.random() < 0.25 and not generic:
         cfg["omit_none"] = r.random() < 0.6
         cfg["nt_as_dict"] = r.random() < 0.5
         cfg["via_dialect"] = r.random() < 0.3
+        # an option only matters next to the shapes it governs: add (as first, default-free fields)
+        # a NamedTuple-typed field resp. a container of Optionals
+        extra = []
+        if cfg["nt_as_dict"] or r.random() < 0.3:
+            nd = gen_nt(r, tbl, max(depth - 1, 1), probe)
+            extra.append({"name": "pt", "type": ("nt", nd["name"])})
+            if r.random() < 0.5:
+                extra.append({"name": "pts", "type": r.choice([("list", ("nt", nd["name"])), ("dict", ("str",), ("nt", nd["name"])),
+                                                                 ("opt", ("nt", nd["name"]))])})
+        if cfg["omit_none"]:
+            inner = ("opt", gen_type(r, tbl, 0, probe))
+            extra.append({"name": "on", "type": r.choice([("list", inner), ("dict", ("str",), inner), ("tuple", [inner, ("int",)]),
+                                                           ("tuplevar", inner), inner])})
+        for j, e in enumerate(extra):
+            e.update({"name": e["name"] + str(j), "default": None, "init": True, "alias_meta": None, "alias_ann": None,
+                      "alias_cfg": None, "alias": None})
+        fields[0:0] = extra
     for f in fields:
         f["nt_override"] = None
         f["final"] = False
-        if f["type"][0] == "nt" and r.random() < 0.4:
+        if f["type"][0] == "nt" and r.random() < 0.5:
             f["nt_override"] = r.choice(["as_list", "as_dict"])     # field override beats the class-wide option
         elif f["alias_ann"] is None and not contains_tvar(f["type"]) and r.random() < 0.08:
             f["final"] = True
